@@ -433,12 +433,6 @@ impl Session {
         });
     }
 
-    /// Verification hook: the `expired` flag.
-    #[cfg(rs_matter_verif)]
-    pub fn verif_set_expired(&mut self, expired: bool) {
-        self.expired = expired;
-    }
-
     /// Get the internal ID of the session
     /// This ID is guaranteed to be unique across all sessions
     pub const fn id(&self) -> u32 {
